@@ -212,7 +212,7 @@ open JsonV.Canon JsonV.Model.Quote JsonV.Spec.StringSpec
 open JsonV.Fmt
 open JsonV.Lemmas.CanonTree JsonV.Lemmas.CanonAtom JsonV.Lemmas.CanonSort JsonV.Lemmas.CanonForm JsonV.Lemmas.CanonParse
 open JsonV.Lemmas.CanonRound JsonV.Lemmas.CanonLex JsonV.Lemmas.CanonNest
-open JsonV.Props.C10Glue JsonV.Lemmas.NumFloat
+open JsonV.Props.C10Glue JsonV.Lemmas.NumFloat JsonV.Lemmas.NumReformat
 
 /-- What a successful call returns: the compact rendering of the canonical tree of a strict input. -/
 theorem canonicalize_eq_some (fp : FloatCodec) (b c : Bytes) :
@@ -261,6 +261,31 @@ theorem canon_strings_minimal (fp : FloatCodec) (t : JV) (h : strict t = true) (
   | tru => simp [canonAtom] at e
   | fls => simp [canonAtom] at e
 
+/-! #### numbers: one definition, C10's
+
+The number step of the model IS slice C10's model of `jsonwire.ReformatNumber` with both canonicalize flags set
+(`canonNum` unfolds to it by `rfl`; there is no second copy of the `n < 16` shortcut), and `shortInt` is C10's
+`verbatimB true true` (`verbatimB_on`).  Everything C13 says about numbers is a corollary of C10's
+`reformat_cases` / `reformat_number_spec` / `reformat_canonical` / `reformat_idempotent`. -/
+
+theorem canonNum_is_reformat (fp : FloatCodec) (lit : Bytes) :
+    canonNum fp lit = JsonV.Model.Number.reformatNumber fp.parse fp.append true true lit := rfl
+
+/-- C10's closed form at `ci = cf = true`. -/
+theorem canonNum_cases (fp : FloatCodec) (lit : Bytes) :
+    canonNum fp lit = if shortInt lit then lit else fp.append (numValue fp lit) := by
+  rw [canonNum_is_reformat, reformat_cases, verbatimB_on]
+
+/-- A valid number token is a number of the grammar (C12's `scanNum_iff'`). -/
+theorem jnumber_of_valid (lit : Bytes) (h : (Tok.num lit).valid = true) : JsonV.Spec.Grammar.JNumber lit := by
+  simp only [Tok.valid, beq_iff_eq] at h
+  exact (scanNum_iff' lit).1 h
+
+/-- C10's `reformat_number_spec`: a canonicalized number token is a number token again. -/
+theorem canonNum_valid (fp : FloatCodec) (hw : ∀ f, WFD (fp.shortest f).1 (fp.shortest f).2) (lit : Bytes)
+    (h : (Tok.num lit).valid = true) : (Tok.num (canonNum fp lit)).valid = true :=
+  (reformat_number_spec fp hw true true lit (jnumber_of_valid lit h)).2.1
+
 /-- `canon_numbers_ecma`: every number literal of the output comes from an input literal `lit` and is the
 ECMA-262 Number::toString layout of the shortest decimal of `numValue fp lit` (ParseFloat, −0 → 0, ±Inf → ±MaxFloat64)
 — except that an integer literal of fewer than 16 characters (other than `-0`) is copied verbatim (the shortcut of
@@ -280,7 +305,7 @@ theorem canon_numbers_ecma (fp : FloatCodec)
   | num lit =>
     simp only [canonAtom, Tok.num.injEq] at e
     refine ⟨lit, hk, ?_⟩
-    rw [canonNum_eq] at e
+    rw [canonNum_cases] at e
     by_cases hs : shortInt lit = true
     · rw [if_pos hs] at e; exact Or.inl ⟨hs, e.symm⟩
     · rw [if_neg hs] at e
@@ -296,11 +321,12 @@ theorem canon_numbers_ecma (fp : FloatCodec)
 
 /-- `canon_idem` (tree level): the canonical tree is strict again and is its own canonical tree.  The float
 parameter enters only through C10's `CodecLaws` (well-formed shortest digits; the canonical spelling of a value
-reads back as that value), from which `numStable_of_laws` (slice C10) gives that a canonical number literal is
+reads back as that value), from which C10's `reformat_idempotent` gives that a canonical number literal is
 re-spelled as itself. -/
 theorem canon_tree_idem (fp : FloatCodec) (hc : CodecLaws fp) (t : JV) (h : strict t = true) :
     strict (canonTree fp t) = true ∧ canonTree fp (canonTree fp t) = canonTree fp t := by
-  have hn := numStable_of_laws fp hc
+  have hn : ∀ lit, canonNum fp (canonNum fp lit) = canonNum fp lit :=
+    fun lit => reformat_idempotent fp hc true true lit
   have good := good_sortTree _ (namesOK_respell fp t h)
   have perm := toks_canonTree fp t
   have hstr : ∀ r, Tok.str r ∈ (canonTree fp t).toks → strOK r = true := by
@@ -375,23 +401,10 @@ interchangeable (relative to `ShortIntFixed`). -/
 theorem respell_congr_num (fp : FloatCodec) (hs : ShortIntFixed fp) (a b : Bytes)
     (ha : JsonV.Spec.Grammar.JNumber a) (hb : JsonV.Spec.Grammar.JNumber b) (h : numValue fp a = numValue fp b) :
     canonAtom fp (.num a) = canonAtom fp (.num b) := by
-  have e : ∀ lit, JsonV.Spec.Grammar.JNumber lit → canonNum fp lit = fp.append (numValue fp lit) := by
-    intro lit hj
-    rw [canonNum_eq]
-    by_cases c : shortInt lit = true
-    · have hi : JsonV.Spec.Ecma.isIntLit lit = true := by
-        apply (JsonV.Lemmas.NumJNumber.intLit_iff_noFrac lit hj).2
-        simp only [shortInt, Bool.and_eq_true, Bool.not_eq_true'] at c
-        exact c.1.2
-      rw [if_pos c, hs lit hi c]
-    · rw [if_neg c]
+  have e : ∀ lit, JsonV.Spec.Grammar.JNumber lit → canonNum fp lit = fp.append (numValue fp lit) :=
+    fun lit hj => reformat_canonical fp hs lit hj
   simp only [canonAtom]; rw [e a ha, e b hb, h]
 
-/-- A valid number token is a number of the grammar (C12's `scanNum_iff'`), so the hypothesis above holds of every
-number token of a tokenized text. -/
-theorem jnumber_of_valid (lit : Bytes) (h : (Tok.num lit).valid = true) : JsonV.Spec.Grammar.JNumber lit := by
-  simp only [Tok.valid, beq_iff_eq] at h
-  exact (scanNum_iff' lit).1 h
 
 /-- The hypotheses are satisfiable: `{"b":"A", "a" : 1}` parses to a strict tree whose tokens are those of
 `t`, and `u` = `{"a":1,"b":"A"}` is strict as well. -/
@@ -409,7 +422,6 @@ theorem canon_no_ws (fp : FloatCodec) (hw : ∀ f, WFD (fp.shortest f).1 (fp.sho
     (h : canonicalize fp b = some c) :
     ∃ ts, c = ((punct [.top0] ts).map Lex.bytes).flatten ∧
       ∀ l ∈ punct [.top0] ts, (∀ raw, l ≠ .tok (.str raw)) → ∀ x ∈ l.bytes, isWs x = false := by
-  have hl := numLex_of_wfd fp hw
   obtain ⟨t, hp, _, rfl⟩ := (canonicalize_eq_some fp b c).mp h
   have hv := (parseText_wellNested b t hp).2.1
   refine ⟨(canonTree fp t).toks, flatWs_compact _ _, ?_⟩
@@ -423,11 +435,7 @@ theorem canon_no_ws (fp : FloatCodec) (hw : ∀ f, WFD (fp.shortest f).1 (fp.sho
     cases k0 with
     | str raw => exact absurd rfl (hs _)
     | num lit =>
-      show (Tok.num (canonNum fp lit)).valid = true
-      rw [canonNum_eq]
-      split
-      · exact v0
-      · exact hl _
+      exact canonNum_valid fp hw lit v0
     | bo => rfl
     | eo => rfl
     | ba => rfl
@@ -443,28 +451,23 @@ theorem canon_roundtrip (fp : FloatCodec) (hw : ∀ f, WFD (fp.shortest f).1 (fp
     (h : canonicalize fp b = some c) :
     ∃ t, parseText b = some t ∧ strict t = true ∧ c = renderCompact (canonTree fp t).toks ∧
       tokenize c = some (canonTree fp t).toks ∧ parseText c = some (canonTree fp t) := by
-  have hl := numLex_of_wfd fp hw
   obtain ⟨t, hp, hs, rfl⟩ := (canonicalize_eq_some fp b c).mp h
   refine ⟨t, hp, hs, rfl, ?_⟩
-  have hw := (parseText_wellNested b t hp)
+  have hwn := (parseText_wellNested b t hp)
   have hparse : parse t.toks = some t := by
     unfold parseText at hp
-    rw [hw.1] at hp
+    rw [hwn.1] at hp
     exact hp
-  obtain ⟨hacc, hatoms⟩ := accepts_canonTree fp t.toks t hparse hw.2.2
+  obtain ⟨hacc, hatoms⟩ := accepts_canonTree fp t.toks t hparse hwn.2.2
   have hvalid : ∀ k ∈ (canonTree fp t).toks, k.valid = true := by
     intro k hk
     obtain ⟨k0, hk0, e⟩ := List.mem_map.mp ((toks_canonTree fp t).mem_iff.mp hk)
-    have v0 := hw.2.1 k0 hk0
+    have v0 := hwn.2.1 k0 hk0
     subst e
     cases k0 with
     | str raw => exact canonStr_valid raw
     | num lit =>
-      show (Tok.num (canonNum fp lit)).valid = true
-      rw [canonNum_eq]
-      split
-      · exact v0
-      · exact hl _
+      exact canonNum_valid fp hw lit v0
     | bo => rfl
     | eo => rfl
     | ba => rfl
